@@ -126,7 +126,17 @@ def run_cfg(case, failures):
         return {"failures": failures}
     alphabet = sorted(R.terms, key=repr)[:2] + [gen_cfg.FOREIGN]
     words = words_upto(alphabet, 3)
-    lang = {w for w in R.language_upto(3) if set(w) <= set(alphabet)}
+    nmax = 3
+    if d.get("big"):
+        nmax = 6
+        long_members = sorted((w for w in R.language_upto(6) if len(w) > 3 and set(w) <= set(alphabet)), key=repr)[:25]
+        near = []
+        for w in long_members[:10]:
+            near += [w[:i] + w[i + 1:] for i in range(len(w))] + [w[:i] + w[i + 1:i + 2] + w[i:i + 1] + w[i + 2:]
+                                                                  for i in range(len(w) - 1)]
+        words = words + [w for w in long_members + near if w not in words]
+    lang = {w for w in R.language_upto(nmax) if set(w) <= set(alphabet)}
+    lang = {w for w in lang if w in set(words)} if d.get("big") else lang
     with guard(failures, "to_pda"):
         P = g.to_pda()
         X = ref_pda.from_lib(P)
@@ -135,7 +145,8 @@ def run_cfg(case, failures):
             failures.append(fail("to_pda", "language", {"missing": sorted(lang - got, key=repr)[:3],
                                                         "extra": sorted(got - lang, key=repr)[:3]}))
         G2 = ref_cfg.lib_to_ref(P.to_cfg())
-        got2 = {w for w in G2.language_upto(3) if set(w) <= set(alphabet)}
+        got2 = {w for w in G2.language_upto(nmax) if set(w) <= set(alphabet)}
+        got2 = {w for w in got2 if w in set(words)} if d.get("big") else got2
         if got2 != lang:
             failures.append(fail("to_pda.to_cfg", "language", {"missing": sorted(lang - got2, key=repr)[:3],
                                                                "extra": sorted(got2 - lang, key=repr)[:3]}))
